@@ -63,6 +63,7 @@ fn parse_vcf_text(text: &str) -> CallSet {
                 info: 0,
                 fmt_dp: false,
                 fmt_gq: false,
+                ref_pad: 0,
                 has_gt: gt_idx.is_some(),
                 force: 0,
                 gts,
@@ -116,6 +117,7 @@ fn load_bcf(path: &Path) -> Result<CallSet, String> {
             info: 0,
             fmt_dp: false,
             fmt_gq: false,
+            ref_pad: 0,
             has_gt: true,
             force: 0,
             gts,
